@@ -19,12 +19,16 @@ C = {
          'Matcher.tla is the formalised documentation. TLC (P1) checks the listed laws for every pattern over the component pools; (P4) prints the selection of each of 5.7k patterns on a fixed 20-message session which the real parse().simplify().matches() must reproduce in up to 13 spellings; (P3) generated trees of depth 1-3 are evaluated by the real tool on random sessions and by TLC on its own resolution of those sessions.', '4 C05'),
  'C06': ('model_checking', 'TLA+ Session/Controller + Matcher semantics: TLC over filter/selection changes at every point + replay + trace validation',
          'The specification decides, with its own matcher semantics, which lines must appear; TLC explores all placements of filter and selection commands in bounded histories, and validates the real tool\'s output per input line on those and on random sessions.', '4 C06'),
+ 'C07': ('model_checking', 'TLA+ Protocol.tla: TLC over all load orders + function table of every lookup evaluated by TLC on independently extracted descriptions + session traces over all shipped interfaces',
+         'Version precedence is model-checked for all 720 load orders and the same synthetic files are loaded by the real protocol.load in those orders; every interface x message x argument position and every enum question (entries, unions, 0, outside) is asked of the real lookups and TLC compares each answer with Protocol.tla evaluated on descriptions extracted by separate code; output tokens are validated on sessions over all shipped interfaces.', '4 C07'),
  'C08': ('model_checking', 'TLA+ Session line pipeline: TLC over line streams with EOF at every point, both --supress settings + replay with the input file object as observation point',
          'One item per line, order, passthrough text, --supress, and output-before-next-read are checked by TLC on the model and, on the real tool, by collecting what was written at each readline() call and validating the per-line items; truncation at random byte positions included.', '4 C08'),
  'C11': ('model_checking', 'TLA+ Session!ListResult: TLC over list queries at every point + replay + trace validation',
          'Listed messages (identity, order), last-N, the three counts and read-only-ness are defined in TLA+ and compared by TLC with what the real `list` prints, over model behaviours and random sessions dense in queries.', '4 C11'),
  'C12': ('model_checking', 'TLA+ Matcher!Refine accumulation: TLC explores command chains over an atom pool + replay + extensional comparison by TLC',
          'After every filter/breakpoint command the real matcher is evaluated on every recorded message; TLC compares that selection with Refine/SelLo/SelHi. Exhaustive for chains of <= 5 events over 11 commands, sampled for random chains of up to 12 commands.', '4 C12'),
+ 'C14': ('model_checking', 'TLA+ LetterId: TLC invariants (shortlex increasing, no gaps, round trip) + table of the real letter functions validated by TLC + labels typed back as list matchers in session traces',
+         'LetterId.tla defines the labels; TLC proves injectivity/no-gaps/round-trip through three letters, validates the tool\'s two functions entry by entry (through four letters in thorough, samples to 2^31), and validates sessions in which labels known from the generator\'s bookkeeping are used as `list` matchers (objects with > 26 incarnations, > 26 and > 702 connections).', '4 C14'),
  'C16': ('model_checking', 'TLA+ Session times/separators: TLC over gaps around one second with hidden messages + four concretisations per behaviour + trace validation',
          'The separator rule and relative times are checked by TLC on the model; each behaviour is rendered with four time shifts / decimal marks / dialects and the displayed times and separators validated by TLC.', '4 C16'),
 }
